@@ -115,6 +115,18 @@ class C10(Prop):
         from props import c10_extract
         return c10_extract.extract(bdir)
 
+    def canon(self, lines):
+        out = []
+        for l in lines:
+            l = l.rstrip()
+            if l.strip() == "":
+                continue
+            # call_function_pointer's message names the clone ("/c10/obj#3"): reduced to a stable text
+            if l.startswith("err *Owner (") and "of function pointer is destructed" in l:
+                l = "err *fp-owner-destructed"
+            out.append(l)
+        return out
+
     def prepare(self, ctx):
         self.exe = E.compile_harness("c10", [os.path.join(E.VERIF, "harness/c10/c10.c")])
         self.conf = E.make_mudlib(ctx.rundir)
@@ -155,6 +167,17 @@ class C10(Prop):
                           "adv 1", "sweep"])
         mk("long-stall", ["vapply o1 do_op co,0,1,a", "vapply o1 do_op co,1,100,b", "vapply o1 do_op co,2,250,c",
                           "adv 300", "sweep"])
+        # function-pointer call_outs (cop->ob == 0)
+        mk("fp-basic", ["vapply o1 do_op cofp,0,3,a", "vapply o1 do_op co,1,3,b", "vapply o1 do_op info",
+                        "vapply o1 do_op fn,0", "vapply o1 do_op rmn,0", "vapply o1 do_op fh,a", "adv 3", "sweep"])
+        mk("fp-owner-destructed", ["vapply o1 do_op cofp,0,2,a", "vapply o1 do_op co,1,2,b", "vapply o2 do_op co,0,2,c",
+                                    "vapply o2 do_op dest,o1", "vapply o2 do_op info", "adv 2", "sweep", "adv 1", "sweep"])
+        mk("fp-rmall", ["vapply o1 do_op cofp,0,2,a", "vapply o1 do_op cofp,1,40,b", "vapply o2 do_op cofp,0,2,c",
+                        "vapply o1 do_op rmall", "vapply o2 do_op info", "adv 2", "sweep"])
+        mk("fp-rmall-drops-dead", ["vapply o1 do_op cofp,0,5,a", "vapply o2 do_op dest,o1", "vapply o2 do_op rmall",
+                                    "vapply o2 do_op cofp,1,5,b", "vapply o2 do_op info", "adv 5", "sweep"])
+        mk("fp-in-callback", ["vapply o1 set_script co:a cofp,1,32,b;fh,b;rmh,b;cofp,2,1,c", "vapply o1 do_op cofp,0,1,a",
+                              "adv 1", "sweep", "adv 1", "sweep", "adv 40", "sweep"])
         mk("reschedule-chain", ["vapply o1 set_script co:a co,0,1,b", "vapply o1 set_script co:b co,0,32,c",
                                 "vapply o1 set_script co:c co,0,31,d", "vapply o1 do_op co,0,1,a", "adv 1", "sweep",
                                 "adv 1", "sweep", "adv 32", "sweep", "adv 31", "sweep"])
@@ -164,14 +187,14 @@ class C10(Prop):
         """ops performed by `self_obj`; st tracks tags; returns list of op strings and registers scripts"""
         ops = []
         for _ in range(n):
-            k = rng.weighted([("co", 10), ("rmh", 3), ("rmn", 2), ("fh", 3), ("fn", 2), ("rmall", 1),
+            k = rng.weighted([("co", 8), ("cofp", 4), ("rmh", 3), ("rmn", 2), ("fh", 3), ("fn", 2), ("rmall", 1),
                               ("dest", 1), ("err", 1), ("info", 2)])
-            if k == "co":
+            if k in ("co", "cofp"):
                 st["tag"] += 1
                 tag = "t%d" % st["tag"]
                 st["tags"].setdefault(self_obj, []).append(tag)
                 d = rng.weighted(DELAYS)
-                ops.append("co,%d,%d,%s" % (rng.below(4), d, tag))
+                ops.append("%s,%d,%d,%s" % (k, rng.below(4), d, tag))
                 if depth < 3 and rng.chance(2, 5):
                     sub = self.gen_ops(rng, st, self_obj, depth + 1, rng.range(1, 3))
                     st["scripts"].append("vapply o%d set_script co:%s %s" % (self_obj, tag, ";".join(sub)))
@@ -215,12 +238,16 @@ class C10(Prop):
         return [self.gen_case(rng, "g%d" % i) for i in range(n)]
 
     def histogram(self, cases, impl):
-        h = {"fires": 0, "removes_hit": 0, "removes_miss": 0, "finds": 0, "errors": 0, "dests": 0, "ticks": 0,
+        h = {"fp_schedules": 0, "fp_owner_destructed": 0, "fires": 0, "removes_hit": 0, "removes_miss": 0, "finds": 0, "errors": 0, "dests": 0, "ticks": 0,
              "in_callback_schedules": 0}
         for c in cases:
             for l in impl.get(c.id, []):
                 t = l.split()
-                if len(t) > 1 and t[1] == "fire":
+                if len(t) > 2 and t[2] == "cofp":
+                    h["fp_schedules"] += 1
+                elif l.startswith("err *fp-owner"):
+                    h["fp_owner_destructed"] += 1
+                elif len(t) > 1 and t[1] == "fire":
                     h["fires"] += 1
                 elif len(t) > 2 and t[2] in ("rmh", "rmn"):
                     h["removes_hit" if t[-1] != "-1" else "removes_miss"] += 1
@@ -234,7 +261,7 @@ class C10(Prop):
                     h["ticks"] += 1
             for l in c.lines:
                 if "set_script" in l:
-                    h["in_callback_schedules"] += l.count("co,")
+                    h["in_callback_schedules"] += l.count("co,") + l.count("cofp,")
         return h
 
 
